@@ -1,0 +1,45 @@
+//go:build verif
+
+// Contract for the Vortex verifier (comment-only): acceptance-implies-check clauses. Every callee is an opaque
+// call (arbitrary results); the results of the checks are captured as ghost values at the call sites, and a nil
+// error may be returned only on paths on which every prescribed check was made and passed, on the values the
+// relation speaks about (the evaluation of uAlpha against the claims, the codeword test, and for every selected
+// column: index range, consistency of the opened column with uAlpha, SIS hash, Merkle authentication).
+
+package vortex
+
+//@ func Params.Verify
+//@ layer opaque extensions.E4 Hash koalabear.Element
+//@ option opaque-calls
+//@ option nomerge
+//@ requires p.Key.Degree >= 0
+//@ ghost evalok = false
+//@ ghost ua = uf_none(input.Alpha)
+//@ ghost cl = input.Alpha
+//@ ghost rsok = false
+//@ ghost colval = input.Alpha
+//@ ghost hashok = false
+//@ ghost coldone = false
+//@ cut after call EvalFextPolyLagrange #1
+//@ + ghost evalok = isnil(callresult1)
+//@ + ghost ua = callresult0
+//@ cut after call EvalFextPolyHorner #1
+//@ + ghost cl = callresult
+//@ cut after call IsReedSolomonCodewords #1
+//@ + ghost rsok = callresult
+//@ loop 0
+//@ + ghost coldone = false
+//@ + invariant[index] -1 <= rangeindex && rangeindex < len(input.SelectedColumns)
+//@ + backedge[every-column-checked] coldone
+//@ cut after call EvalBasePolyHorner #1
+//@ + ghost colval = callresult
+//@ cut after call Hash #1
+//@ + ghost hashok = isnil(callresult)
+//@ cut after call Verify #1
+//@ + ghost coldone = isnil(callresult)
+//@ + invariant[column-checked] isnil(callresult) ==> hashok && 0 <= c && c < len(proof.UAlpha) && colval == proof.UAlpha[c]
+//@ ensures[claims] isnil(result) ==> evalok && ua == cl
+//@ ensures[codeword] isnil(result) ==> rsok
+//@ ensures[counts] isnil(result) ==> len(proof.OpenedColumns) == len(input.SelectedColumns) && len(proof.MerkleProofOpenedColumns) == len(input.SelectedColumns)
+//@ modifies nothing
+//@ end
